@@ -2,7 +2,7 @@
 // (reference leg).
 //
 // The file is one translation unit when compiled plainly, and is compiled in parts (-DC01_PART=k, see pcxx.py) by the
-// check so that the element-type x capacity instantiations build in parallel (14 parts): part 0 holds main(), the parser and the
+// check so that the element-type x capacity instantiations build in parallel (15 parts): part 0 holds main(), the parser and the
 // reference leg, every part holds the flavours listed in its `#if PART(k)` block.
 #if defined(C01_STUB)
 // stand-in for part C01_STUB when that part does not compile against the library under test (pcxx.py): no library header
@@ -45,7 +45,7 @@ using namespace vh;
     #define PART(k) 1
 #endif
 #if !defined(C01_NPARTS)
-    #define C01_NPARTS 14
+    #define C01_NPARTS 15
 #endif
 
 // ---------------------------------------------------------------------------------------------------------------------
@@ -367,8 +367,9 @@ static bool with_value(i64 k, i64 x, F&& f)
     }
 }
 // the number a value holds, in the units of the model (doubles: quarters)
-template <typename U> inline i64 num_of(U e) { if constexpr (std::is_floating_point_v<U>) { return static_cast<i64>(e * 4.0); } else { return static_cast<i64>(e); } }
-static bool pred_of64(int id, i64 v);
+// (128 bits: an unsigned long long above 2^63 keeps its value)
+template <typename U> inline i128 num_of(U e) { if constexpr (std::is_floating_point_v<U>) { return static_cast<i128>(e * 4.0); } else { return static_cast<i128>(e); } }
+static bool pred_of64(int id, i128 v);
 // the number an element of an arithmetic flavour holds (the model's dec_*): what  item == value  compares
 inline i64 held(int e) { return e; }
 inline i64 held(long long e) { return e; }
@@ -815,7 +816,7 @@ static bool with_caps(i64 cap, F&& f)
 }
 
 static bool pred_of(int id, int v) { return pred_of64(id, v); }
-static bool pred_of64(int id, i64 v)
+static bool pred_of64(int id, i128 v)
 {
     auto key = v >= 0 ? v / 16 : -((-v + 15) / 16);
     switch (id) {
@@ -847,6 +848,7 @@ int c01_part10(std::string const& fl, i64 cap, Steps const& steps, Out& impl);
 int c01_part11(std::string const& fl, i64 cap, Steps const& steps, Out& impl);
 int c01_part12(std::string const& fl, i64 cap, Steps const& steps, Out& impl);
 int c01_part13(std::string const& fl, i64 cap, Steps const& steps, Out& impl);
+int c01_part14(std::string const& fl, i64 cap, Steps const& steps, Out& impl);
 
 #if PART(0)
 int c01_part0(std::string const& fl, i64 cap, Steps const& steps, Out& impl)
@@ -891,6 +893,14 @@ int c01_part5(std::string const& fl, i64 cap, Steps const& steps, Out& impl)
     if (fl == "stack") { return MK_ST(int, 0, 1, 3, 4, 16, 256); }
     if (fl == "st_trk") { return MK_ST(Tracked, 1, 3, 4); }
     if (fl == "st_str") { return MK_ST(std::string, 1, 3); }
+    return -1;
+}
+#endif
+// a part of its own: a stack member that stops compiling for move-only elements (e.g. one that starts to copy) then takes
+// only this flavour out of the run (stub, see pcxx.py), the other stack flavours still report values
+#if PART(14)
+int c01_part14(std::string const& fl, i64 cap, Steps const& steps, Out& impl)
+{
     if (fl == "st_mov") { return MK_ST(MoveOnly, 1, 3, 4); }
     return -1;
 }
@@ -1054,7 +1064,7 @@ static bool with_std_range(i64 kind, std::vector<i64> const& xs, F&& f)
 //   * the six relations (KeyTag: operator< coarser than operator==),
 //   * the source range after insert(p, i, j) / assign(i, j) / X(i, j) (copies: untouched) and after
 //     insert(p, make_move_iterator(i), make_move_iterator(j)) (the standard's spelling of move_insert: moved-from)
-inline std::string g_elem = "int";   // element type of the running flavour: int trk pod nxc str mov tdc kt
+inline std::string g_elem = "int";   // element type of the running flavour: int trk pod nxc str mov tdc kt vi iln ilt ll dbl
 template <typename T>
 static void std_source_after_t(Out& o, int how, std::vector<i64> const& xs)
 {
@@ -1079,6 +1089,9 @@ static void std_source_after(Out& o, int how, std::vector<i64> const& xs)
     else if (g_elem == "mov") { std_source_after_t<MoveOnly>(o, how, xs); }
     else if (g_elem == "tdc") { std_source_after_t<TdcCopy>(o, how, xs); }
     else if (g_elem == "kt") { std_source_after_t<KeyTag>(o, how, xs); }
+    else if (g_elem == "vi") { std_source_after_t<VI>(o, how, xs); }
+    else if (g_elem == "iln") { std_source_after_t<IlN>(o, how, xs); }
+    else if (g_elem == "ilt") { std_source_after_t<IlT>(o, how, xs); }
     else { std_source_after_t<int>(o, how, xs); }
 }
 template <typename C>
@@ -1315,10 +1328,10 @@ bool vh::run_case(std::string const& op, Toks& in, Out& impl, Out& ref)
     bool stubbed = false;
     Out why;
     for (part_fn f : {c01_part0, c01_part1, c01_part2, c01_part3, c01_part4, c01_part5, c01_part6, c01_part7, c01_part8, c01_part9, c01_part10,
-                      c01_part11, c01_part12, c01_part13}) {
+                      c01_part11, c01_part12, c01_part13, c01_part14}) {
         Out tmp;
         r = f(flavour, cap, steps, tmp);
-        if (r == -2) { stubbed = true; if (why.s.empty()) { why = tmp; } r = -1; continue; }
+        if (r == -2) { stubbed = true; why.tok(tmp.s); r = -1; continue; }   // which stub owns the flavour is unknown: all are named
         if (r != -1) { impl = tmp; break; }
     }
     if (r == -1) { impl.tok(stubbed ? why.s : std::string("bad-instantiation")); if (!stubbed) { return true; } }
